@@ -34,16 +34,20 @@ Trues(rs)  == Cardinality({i \in DOMAIN rs : rs[i] = "T"})
 AllTrue(rs) == \A i \in DOMAIN rs : rs[i] = "T"
 NonTrueSet == {"F", "M"}
 
-(* all(..): true iff every operand true; the non-true value is not pinned *)
-AllAdm(rs) == IF AllTrue(rs) THEN {"T"} ELSE NonTrueSet
-
-(* of(.., n) *)
+(* The statement of C06 pins when all()/of() are TRUE.  Their non-true value is pinned here by   *)
+(* the same rules the statement gives for the connectives they generalise ("fixed truth tables, *)
+(* identically in two-operand, grouped and identifier-list form"):                              *)
+(*   all   = and over the operands: the first non-true operand result                           *)
+(*   of(n>=1) whose count is not reached = or without a true operand: false if any operand is   *)
+(*           false, else missing                                                                *)
+(*   of(0) = none true: false if any operand is true, else true if any is false, else missing   *)
+AnyIs(rs, x) == \E i \in DOMAIN rs : rs[i] = x
+AllAdm(rs) == {AndN(rs)}
 OfAdm(n, rs) ==
-  IF n >= 1 THEN IF Trues(rs) >= n THEN {"T"} ELSE NonTrueSet
-  ELSE IF Trues(rs) > 0 THEN NonTrueSet
-  ELSE IF rs # <<>> /\ \A i \in DOMAIN rs : rs[i] = "F" THEN {"T"}
-  ELSE IF \A i \in DOMAIN rs : rs[i] = "M" THEN NonTrueSet
-  ELSE Tri
+  IF n >= 1 THEN IF Trues(rs) >= n THEN {"T"}
+                 ELSE IF n > Len(rs) THEN NonTrueSet      \* a threshold no list can reach: left open
+                 ELSE IF AnyIs(rs, "F") THEN {"F"} ELSE {"M"}
+  ELSE IF AnyIs(rs, "T") THEN {"F"} ELSE IF AnyIs(rs, "F") THEN {"T"} ELSE {"M"}
 
 -----------------------------------------------------------------------------
 (* Set-lifted forms: operands are SETS of admissible results.  Each is the  *)
@@ -65,16 +69,9 @@ OrS(Ss) ==
 MinTrues(Ss) == Cardinality({i \in DOMAIN Ss : Ss[i] = {"T"}})
 MaxTrues(Ss) == Cardinality({i \in DOMAIN Ss : "T" \in Ss[i]})
 
-AllS(Ss) == (IF \A i \in DOMAIN Ss : "T" \in Ss[i] THEN {"T"} ELSE {})
-            \cup (IF \E i \in DOMAIN Ss : Ss[i] # {"T"} THEN NonTrueSet ELSE {})
-
-OfS(n, Ss) ==
-  IF n >= 1
-  THEN (IF MaxTrues(Ss) >= n THEN {"T"} ELSE {})
-       \cup (IF MinTrues(Ss) < n THEN NonTrueSet ELSE {})
-  ELSE (IF (\A i \in DOMAIN Ss : Ss[i] \ {"T"} # {}) /\ (\E i \in DOMAIN Ss : "F" \in Ss[i])
-        THEN {"T"} ELSE {})
-       \cup (IF Ss = <<>> \/ \E i \in DOMAIN Ss : Ss[i] # {"F"} THEN NonTrueSet ELSE {})
+AllS(Ss) == AndS(Ss)
+(* of(n) over sets: by explicit product (operand sets are singletons except on open predicates) *)
+OfS(n, Ss) == UNION {OfAdm(n, rs) : rs \in {r \in [DOMAIN Ss -> Tri] : \A i \in DOMAIN Ss : r[i] \in Ss[i]}}
 
 (* reference definitions by explicit product, used by MC_Tri to check the   *)
 (* closed forms above                                                       *)
@@ -125,5 +122,6 @@ EngOfLoop(c, rs, count, res) ==
 EngOfGroup(c, rs) == EngOfLoop(c, rs, 0, "M")
 
 (* match_of on a single non-batched expression: solver.rs:1108-1113,1334 *)
-EngOfSingle(c, r) == IF c = 0 THEN (IF r = "T" THEN "F" ELSE IF r = "F" THEN "T" ELSE "M") ELSE r
+EngOfSingle(c, r) == IF c = 0 THEN (IF r = "T" THEN "F" ELSE IF r = "F" THEN "T" ELSE "M")
+                     ELSE IF r = "T" /\ c > 1 THEN "M" ELSE r
 =============================================================================
